@@ -65,7 +65,7 @@ StoreMatches(store, m) ==
 
 KvVerdict(r) ==
     LET res == Run(<<>>, r.reqs, <<>>) IN
-    IF r.ending = "abort" THEN V("C06", "the server process died")
+    IF r.ending = "abort" THEN V("C06", "the server process died or hung")
     ELSE IF r.recv # res[2]
            THEN V("C06", "replies differ from the map model (" \o r.how \o ", the client's stream ended with " \o r.ending \o ")")
     ELSE IF r.ending # "ok" THEN V("C06", "the replies did not arrive: " \o r.ending \o " (" \o r.how \o ")")
@@ -85,7 +85,7 @@ HasCommand(stream) ==
 
 HostileVerdict(r) ==
     LET okb == Encode(OkF0) IN
-    IF Has(r, "abort") THEN V("C10", "the server process died on a hostile stream (" \o r.tag \o ")")
+    IF Has(r, "abort") THEN V("C10", "the server process died or hung on a hostile stream (" \o r.tag \o ")")
     ELSE IF \E i \in 1..Len(r.control) : r.control[i].ending # "ok"
            THEN V("C10", "the control connection was disturbed by a hostile stream (" \o r.tag \o ")")
     \* (a stream that contains a command the decoder accepts may legitimately change `victim`)
@@ -124,7 +124,7 @@ FirstStep(r, steps, i) ==
     ELSE LET v == StepVerdict(r, steps[i]) IN IF v # OK THEN v ELSE FirstStep(r, steps, i + 1)
 
 LimitVerdict(r) ==
-    IF Has(r, "abort") THEN V("C15", "the server process died")
+    IF Has(r, "abort") THEN V("C15", "the server process died or hung")
     ELSE LET v == FirstStep(r, r.steps, 1)
          IN IF v # OK THEN v
             ELSE IF Serving(r.hooks, 0, 0) > r.max THEN V("C15", "the permit events show more handlers alive than max_connections")
@@ -146,7 +146,7 @@ FirstClient(r, i) ==
     ELSE LET v == ClientVerdict(r, r.clients[i], i) IN IF v # OK THEN v ELSE FirstClient(r, i + 1)
 
 ShutdownVerdict(r) ==
-    IF Has(r, "abort") THEN V("C16", "the server process died")
+    IF Has(r, "abort") THEN V("C16", "the server process died or hung")
     ELSE IF ~r.returned THEN V("C16", "Server::run did not return within the bound after the shutdown signal")
     ELSE FirstClient(r, 1)
 
